@@ -48,6 +48,9 @@ let rec parse_cnode (toks : string list) : node * string list =
        | [] -> failwith "SS") in
     let (alts, r) = go (ios k) t in (NStringSet (alts, bos ic), r)
   | "Alt" :: t -> let (a, r) = parse_cnode t in let (b, r2) = parse_cnode r in (NAlt (a, b), r2)
+  | "Loop" :: mn :: mx :: g :: gs :: ge :: t ->
+    let (c, r) = parse_cnode t in
+    (NLoop (c, nn mn, (if mx = "-" then None else Some (nn mx)), bos g, nat_of_int (ios gs), nat_of_int (ios ge)), r)
   | "LA" :: ng :: bw :: sg :: eg :: t ->
     let (c, r) = parse_cnode t in (NLookaround (bos ng, bos bw, nat_of_int (ios sg), nat_of_int (ios eg), c), r)
   | "Cat" :: k :: t ->
@@ -133,6 +136,15 @@ let run () =
                 | RAlt (_, _) -> group_node x
                 (* a lookahead over terms of the fragment (no capture groups: start_group = end_group = 0) *)
                 | RLook (true, ng, b) -> (match group_node b with Some m -> Some (NLookaround (ng, false, nat_of_int 0, nat_of_int 0, m)) | None -> None)
+                (* r? r?? r* r*? over a factor of the fragment: the Loop node of the parser (no capture groups enclosed) *)
+                | RQuant (b, O, (None | Some (S O) as mx), g, _, _) ->
+                  (match group_node b with
+                   | Some m -> Some (NLoop (m, nn "0", (match mx with None -> None | Some _ -> Some (nn "1")), g, nat_of_int 0, nat_of_int 0))
+                   | None -> None)
+                | RQuant (b, S O, None, g, _, _) ->
+                  (match group_node b with
+                   | Some m -> Some (NLoop (m, nn "1", None, g, nat_of_int 0, nat_of_int 0))
+                   | None -> None)
                 | y -> atom_node y) t) ts in
             if List.for_all (List.for_all (fun o -> o <> None)) fs then begin
               let ns = List.map (fun t -> make_cat (List.map (fun o -> match o with Some m -> m | None -> NEmpty) t)) fs in
